@@ -100,7 +100,7 @@ func c16Run(x *core.Ctx) {
 		}
 		if i%5 == 0 {
 			// multi-source schema
-			k := 2 + r.Intn(3)
+			k := 1 + r.Intn(4) // a single source goes through the same merge as several
 			kv := []string{"n", strconv.Itoa(k)}
 			for j := 0; j < k; j++ {
 				d := gen.SchemaDoc(r, &gen.SOpts{KeywordNames: j%2 == 1, MaxItems: 2})
